@@ -9,7 +9,7 @@ for p in selftest/mutants/*${pat}*.patch; do
   id=$(basename "$p" | cut -d- -f1)
   if ! git -C /repo apply --check "$PWD/$p" 2>/dev/null; then echo "SKIP  $p (does not apply)"; continue; fi
   git -C /repo apply "$PWD/$p"
-  out=$(./check.sh "$id" quick 2>&1); rc=$?
+  out=$(GOVC_EVIDENCE_DIR=/verif/out/selftest-evidence ./check.sh "$id" quick 2>&1); rc=$?
   git -C /repo apply -R "$PWD/$p"
   if [ $rc -eq 1 ] && echo "$out" | grep -q "^VIOLATION property=$id"; then
     echo "CAUGHT $(basename $p): $(echo "$out" | grep -c '^VIOLATION') violation line(s): $(echo "$out" | grep '^VIOLATION' | head -2 | sed 's/.*obligation=//' | tr '\n' ';')"
